@@ -14,7 +14,7 @@ def canary_run(repo, vdir, scratch, P):
     if not b.canaries:
         return dict(planted=0, failed_as_expected=0, vacuous=[])
     mods = sorted(set(inst for _, inst, _ in b.canaries if inst))
-    vr = vrun.run_verus(path, mods, 30, 8)
+    vr = vrun.run_verus(path, mods, 8, 8, None, 1500, 3)
     lines = b.text().split('\n')
     planted = {}
     for i, ln in enumerate(lines):
@@ -28,9 +28,20 @@ def canary_run(repo, vdir, scratch, P):
         for s in d.get('spans', []):
             if s['line_start'] in planted and 'assertion failed' in d.get('message', ''):
                 hit.add(s['line_start'])
-    vac = ['%s@%s (mirror line %d)' % (planted[l][0], planted[l][1], l) for l in planted if l not in hit]
+    # a function whose query ran out of resources could not prove `false` either: inconclusive, not vacuous
+    rl_fns = set()
+    for d in vr['diags']:
+        if d.get('level') == 'error' and 'rlimit' in d.get('message', '').lower():
+            for s in d.get('spans', []):
+                f = b.fn_at(s['line_start'])
+                if f:
+                    rl_fns.add((f['key'], f['instance']))
+    def fn_of(l):
+        f = b.fn_at(l)
+        return (f['key'], f['instance']) if f else None
+    vac = ['%s@%s (mirror line %d)' % (planted[l][0], planted[l][1], l) for l in planted if l not in hit and fn_of(l) not in rl_fns]
     err = None
     if vr['result'] is None:
         err = 'verus produced no result: ' + ' | '.join(vr['raw'][-3:])
         vac = []
-    return dict(planted=len(planted), failed_as_expected=len(hit), vacuous=vac, error=err, wall_s=round(vr['wall'], 1))
+    return dict(planted=len(planted), failed_as_expected=len(hit), inconclusive_rlimit=len([l for l in planted if l not in hit and fn_of(l) in rl_fns]), vacuous=vac, error=err, wall_s=round(vr['wall'], 1))
